@@ -65,6 +65,7 @@ type Interp struct {
 	pureBlk map[*ssa.BasicBlock]int8
 	mutexes map[*Value]int
 	spec    *specState
+	syncMaps map[*Value]*Map
 }
 
 type methodKey struct {
@@ -1142,6 +1143,10 @@ func (in *Interp) runStub(caller *frame, fn *ssa.Function, st string, args []Val
 	switch {
 	case st == "noop" || st == "zero":
 		return in.zeroResults(fn)
+	case st == "fixed_now":
+		// time.Now() = 2020-09-13T12:26:40Z, for code whose use of the clock is irrelevant to the property
+		tp := in.prog.ImportedPackage("time")
+		return in.callSSA(caller, tp.Func("Unix"), []Value{in.tb.Int(TI64, 1600000000), in.tb.Int(TI64, 0)}, nil)
 	case strings.HasPrefix(st, "harness:"):
 		name := strings.TrimPrefix(st, "harness:")
 		h := in.cfg.lookupHarnessFunc(name)
